@@ -241,6 +241,47 @@ def read_tables() -> dict:
             "calls": calls, "tok": tk, "symbol_kw": sorted(sym_kw)}
 
 
+def read_structure() -> dict:
+    """Structural digest of the parser source (fail-closed pin, checked by Coq: C16_parser_structure_current):
+    module-level names, the methods of both classes, every `self.<attr>` that is assigned (state variables) and the
+    number of `raise` statements per method.  A new state variable or rejection path in the parser is a change
+    of the accepted language the grammar-level tables cannot see."""
+    mod = T._src(SRC)
+    top = []
+    for n in mod.body:
+        if isinstance(n, ast.Assign):
+            top += [t.id for t in n.targets if isinstance(t, ast.Name)]
+        elif isinstance(n, ast.AnnAssign) and isinstance(n.target, ast.Name):
+            top.append(n.target.id)
+        elif isinstance(n, (ast.FunctionDef, ast.ClassDef)):
+            top.append(n.name)
+    out = {"top": top, "classes": []}
+    for cls in mod.body:
+        if not isinstance(cls, ast.ClassDef):
+            continue
+        methods, state, raises = [], set(), []
+        for fn in cls.body:
+            if not isinstance(fn, ast.FunctionDef):
+                continue
+            methods.append(fn.name)
+            nr = 0
+            for n in ast.walk(fn):
+                if isinstance(n, ast.Raise):
+                    nr += 1
+                tgts = []
+                if isinstance(n, ast.Assign):
+                    tgts = n.targets
+                elif isinstance(n, (ast.AugAssign, ast.AnnAssign)):
+                    tgts = [n.target]
+                for t in tgts:
+                    for x in ast.walk(t):
+                        if isinstance(x, ast.Attribute) and isinstance(x.value, ast.Name) and x.value.id == "self":
+                            state.add(x.attr)
+            raises.append((fn.name, nr))
+        out["classes"].append({"name": cls.name, "methods": methods, "state": sorted(state), "raises": raises})
+    return out
+
+
 def generate(ck) -> bool:
     try:
         t = read_tables()
@@ -270,6 +311,16 @@ def generate(ck) -> bool:
         text += "(* sympy.Symbol(name, " + ", ".join(f"{k}={v}" for k, v in t["symbol_kw"]) + ") *)\n"
         text += "Definition symbol_integer_positive : bool := " + \
             ("true" if t["symbol_kw"] == [("integer", True), ("positive", True)] else "false") + ".\n"
+        st = read_structure()
+        text += f"(* structure of the module: top-level names {st['top']} *)\n"
+        text += f"Definition src_top_level : list (list N) := {sl(st['top'])}.\n"
+        rows = []
+        for c in st["classes"]:
+            text += f"(* class {c['name']}: methods {c['methods']}, assigned self.* {c['state']}, raises {c['raises']} *)\n"
+            rows.append("(" + ", ".join([cstr(c["name"]), sl(c["methods"]), sl(c["state"]),
+                                         clist(cpair(cstr(m), cN(k)) for m, k in c["raises"] if k)]) + ")")
+        text += ("Definition src_classes : list (list N * list (list N) * list (list N) * list (list N * N)) :=\n  "
+                 + clist(rows) + ".\n")
     except (T.Unsupported, SyntaxError, OSError) as e:
         ck.gen_failed("C16Gen", e)
         return False
@@ -1052,7 +1103,7 @@ def observe(case: dict, with_simplify: bool = True) -> dict:
     obs["serde"] = _try(via_serde)
     obs["free"] = _try(lambda: ["set"] + sorted(d.free_symbols()))
     obs["shape"] = _try(lambda: [val(x) for x in ir.Shape([d, 5, next(iter(b))]).evaluate(b).dims])
-    if with_simplify:
+    if with_simplify and case.get("simplify", True):
         try:
             s = _with_alarm(6, d.simplify)
             obs["simplify_text"] = s.value
@@ -1080,7 +1131,7 @@ def oracle(case: dict, obs: dict) -> list[str]:
         want = qval(exact(t, b))
     except Undefined:
         return []
-    if abs(Fraction(want[1], want[2] if want[0] == "frac" else 1)) > 10 ** 60:
+    if abs(Fraction(want[1], want[2] if want[0] == "frac" else 1)) > 10 ** 3000:
         return []
     bad = []
     if obs["build"] != ["ok"]:
@@ -1127,7 +1178,7 @@ def exact_m(m, b: dict) -> Fraction:
         return {"FFloor": lambda: Fraction(math.floor(a)), "FCeil": lambda: Fraction(math.ceil(a)),
                 "FAbs": lambda: abs(a), "FSign": lambda: _sign(a), "FSqrt": lambda: _isqrt_exact(a)}[m[1]]()
     a, c = exact_m(m[2], b), exact_m(m[3], b)
-    if abs(a) > 10 ** 80 or abs(c) > 10 ** 80:
+    if (m[1] == "BPow" and (abs(a) > 10 ** 80 or abs(c) > 10 ** 80)) or abs(a) > 10 ** 3000 or abs(c) > 10 ** 3000:
         raise Undefined("pow-size")
     return {"BAdd": lambda: a + c, "BSub": lambda: a - c, "BMul": lambda: a * c, "BDiv": lambda: _div(a, c),
             "BMod": lambda: _mod(a, c), "BPow": lambda: _pow(a, c), "BMax": lambda: max(a, c),
@@ -1327,6 +1378,8 @@ def _known_key(ck, case: dict, obs: dict, bad: list[str]) -> str | None:
         if len(rest) < n0:
             keys.append("sympy-simplify-raises")
     if rest:
+        if sum(1 for _ in _subtrees(case["tree"])) > 150:
+            return None        # large flat trees: never attributed to SymPy (and never silently dropped)
         attr = sympy_attribution(case, obs, rest)
         if attr is None:
             return None
@@ -1379,11 +1432,22 @@ def shrink_tree(ck, case: dict, fails) -> dict:
         c["bindings"] = {s: c["bindings"].get(s, 2) for s in ss}
         c["partial"] = {s: v for s, v in c["partial"].items() if s in ss}
         return c
+    import time
     changed, rounds = True, 0
-    while changed and rounds < 30:
+    deadline = time.time() + 60
+    if "simplify" in case:
+        _norm0 = norm
+
+        def norm(c):  # keep the per-case "do not simplify" flag while shrinking
+            c = _norm0(c)
+            c["simplify"] = case["simplify"]
+            return c
+    while changed and rounds < 30 and time.time() < deadline:
         changed = False
         rounds += 1
         for path, sub in list(_subtrees(cur["tree"])):
+            if time.time() > deadline:
+                break
             cands = []
             if path:
                 cands.append(_replace(cur["tree"], (), sub))          # hoist the subtree to the root
@@ -1439,12 +1503,16 @@ def string_failure(toks, names, b, text=None, rng=None) -> dict | None:
 
 
 def shrink_string(toks, names, b):
+    import time
     cur = list(toks)
     changed = True
-    while changed:
+    deadline = time.time() + 45
+    while changed and time.time() < deadline:
         changed = False
-        for ln in (6, 4, 3, 2, 1):
-            for i in range(0, len(cur) - ln + 1):
+        for ln in sorted({len(cur) // 2, len(cur) // 4, 60, 24, 12, 6, 4, 3, 2, 1} - {0}, reverse=True):
+            for i in range(0, len(cur) - ln + 1, max(1, ln // 3)):
+                if time.time() > deadline:
+                    break
                 c = cur[:i] + cur[i + ln:]
                 if not c:
                     continue
@@ -1646,6 +1714,78 @@ def check_trees(ck, cases: list[dict], report) -> None:
     ck.coverage["tree_cases_in_coq"] = ck.coverage.get("tree_cases_in_coq", 0) + len(rows)
 
 
+def flat_tokens(rng, kind: str, n: int, names: list[str]) -> list:
+    """Large FLAT strings: n parenthesised groups side by side (nesting depth 1-2), or one group nested n deep."""
+    a, b = names[0], names[-1]
+
+    def grp(k, nm=None):
+        return ["(", ("id", nm or a), ("op", rng.choice(["+", "+", "-"])), ("num", k), ")"]
+    out: list = []
+    if kind == "product_of_sums":
+        for k in range(1, n + 1):
+            out += ([("op", "*")] if out else []) + ["(", ("id", a), ("op", "+"), ("num", k % 7 + 1), ")"]
+    elif kind == "sum_of_quotients":
+        for k in range(1, n // 2 + 1):
+            out += ([("op", rng.choice(["+", "-"]))] if out else []) + grp(k % 9 + 1) + [("op", rng.choice(["/", "//"]))] + \
+                ["(", ("id", b), ("op", "+"), ("num", k % 5 + 1), ")"]
+    elif kind == "sum_of_products":
+        for k in range(1, n // 2 + 1):
+            out += ([("op", rng.choice(["+", "-"]))] if out else []) + grp(k % 9 + 1) + [("op", rng.choice(["*", "%"]))] + \
+                ["(", ("id", b), ("op", "+"), ("num", k % 5 + 2), ")"]
+    elif kind == "calls":
+        for k in range(1, n + 1):
+            out += ([("op", "+")] if out else []) + [("id", rng.choice(["floor", "ceiling", "Abs"])), "(",
+                                                      ("id", a), ("op", "/"), ("num", k % 6 + 2), ")"]
+    elif kind == "deep":
+        out = [("id", a)]
+        for k in range(n):
+            out = ["("] + out + [("op", rng.choice(["+", "-", "*"])), ("num", k % 3 + 1), ")"]
+    else:
+        raise AssertionError(kind)
+    return out
+
+
+FLAT_KINDS = ("product_of_sums", "sum_of_quotients", "sum_of_products", "calls")
+
+
+def flat_string_items(rng, thorough: bool) -> list[dict]:
+    """Print->parse / grammar stream of large flat expressions (50-200 groups, depth irrelevant) and moderately deep
+    ones (well within the interpreter's recursion limit: a parenthesis level costs the parser 5 frames)."""
+    items = []
+    sizes = [49, 50, 64, 100, 200] if not thorough else [48, 49, 50, 51, 64, 80, 100, 128, 160, 200]
+    for kind in FLAT_KINDS:
+        for n in (sizes if thorough else rng.sample(sizes, 3)):
+            names = rng.sample(["N", "M", "K", "batch", "a.b"], 2)
+            toks = flat_tokens(rng, kind, n, names)
+            b = {s_: rng.choice([1, 2, 3, 5, 8, 17]) for s_ in names}
+            items.append({"text": render_ir(rng, toks), "bindings": b, "toks": toks, "names": names})
+    for n in ([20, 49, 60] if not thorough else [10, 20, 40, 49, 50, 60, 80]):
+        names = [rng.choice(["N", "M", "seq_len"])]
+        toks = flat_tokens(rng, "deep", n, names)
+        items.append({"text": render_ir(rng, toks), "bindings": {names[0]: rng.choice([1, 2, 3])}, "toks": toks,
+                      "names": names})
+    return items
+
+
+def flat_tree_cases(rng) -> list[dict]:
+    """The same shapes built through the real operators, so that the TEXT SymPy prints (many groups side by side)
+    goes through SymbolicDim(text), serde and the model's parser.  simplify() is not applied to these."""
+    def chain(op, parts):
+        t = parts[0]
+        for p_ in parts[1:]:
+            t = [op, t, p_]
+        return t
+    n1, n2 = rng.choice([52, 60, 75]), rng.choice([30, 40])
+    prod = chain("mul", [["add", ["sym", "N"], ["int", k]] for k in range(1, n1 + 1)])
+    quot = chain("add", [["floordiv", ["add", ["sym", "N"], ["int", k]], ["add", ["sym", "M"], ["int", k % 5 + 1]]]
+                          for k in range(1, n2 + 1)])
+    frac = chain("add", [["div", ["add", ["sym", "N"], ["int", k]], ["add", ["sym", "M"], ["int", k]]]
+                          for k in range(1, n2 + 1)])
+    return [{"tree": prod, "bindings": {"N": 3}, "partial": {}, "simplify": False},
+            {"tree": quot, "bindings": {"N": 17, "M": 2}, "partial": {"M": 2}, "simplify": False},
+            {"tree": frac, "bindings": {"N": 5, "M": 3}, "partial": {"N": 5}, "simplify": False}]
+
+
 def gen_string_items(rng, n: int) -> list[dict]:
     items = []
     for i in range(n):
@@ -1698,6 +1838,9 @@ def run(ck) -> None:
     # 2. generated
     n_str = 500 if not ck.thorough else 12000
     n_tree = 260 if not ck.thorough else 6000
+    fl = flat_string_items(rng, ck.thorough)
+    ck.coverage["large_flat_strings"] = len(fl)
+    s_items += fl
     s_items += gen_string_items(rng, n_str)
     grid = neutral_grid()
     ck.coverage["neutral_constant_grid_cases"] = len(grid)
@@ -1705,7 +1848,7 @@ def run(ck) -> None:
     cg, ug = chain_grid(), usym_grid()
     ck.coverage["rounding_chain_grid_cases"] = len(cg)
     ck.coverage["caller_sympy_symbol_grid_cases"] = len(ug)
-    t_cases += cg + ug
+    t_cases += cg + ug + flat_tree_cases(rng)
     t_cases += [gen_case(rng, ck.thorough) for _ in range(n_tree)]
     check_strings(ck, s_items, report_string)
     check_trees(ck, t_cases, report_tree)
@@ -1758,7 +1901,7 @@ def search(ck) -> None:
         found.append({"kind": "tree", "case": case, "failures": bad, "text": obs.get("text")})
     budget_s = 3000 if not ck.thorough else 30000
     budget_t = 600 if not ck.thorough else 6000
-    for it in gen_string_items(rng, budget_s):
+    for it in flat_string_items(rng, True) + gen_string_items(rng, budget_s):
         if "toks" not in it:
             continue
         try:
